@@ -2,8 +2,145 @@
 C06 — proofs (part: subsets partition the data).  Statements are fixed; they are re-exported by `Props.lean`.
 -/
 import StirVerif.C06.ProofsSym
+import Mathlib.Data.List.Nodup
+import Mathlib.Data.List.Count
 
 namespace StirVerif.C06
+
+namespace Subsets
+
+/-! ### `intRange` -/
+
+theorem mem_intRange {lo hi x : Int} : x ∈ intRange lo hi ↔ lo ≤ x ∧ x ≤ hi := by
+  simp only [intRange, List.mem_map, List.mem_range]
+  constructor
+  · rintro ⟨k, hk, rfl⟩; omega
+  · rintro ⟨h1, h2⟩; exact ⟨(x - lo).toNat, by omega, by omega⟩
+
+theorem intRange_nodup (lo hi : Int) : (intRange lo hi).Nodup := by
+  unfold intRange
+  refine List.Nodup.map ?_ List.nodup_range
+  intro a b h
+  have h' : lo + (a : Int) = lo + (b : Int) := h
+  omega
+
+theorem intRange_length (lo hi : Int) : (intRange lo hi).length = (hi - lo + 1).toNat := by
+  simp [intRange]
+
+theorem intRange_self (a : Int) : intRange a a = [a] := by
+  simp [intRange]
+
+/-! ### `viewsOfSubset` -/
+
+theorem mem_viewsOfSubset {V : Int} {i n : Nat} (npos : 0 < n) (hi : i < n) {v : Int} :
+    v ∈ viewsOfSubset 0 (V - 1) i n ↔ 0 ≤ v ∧ v ≤ V - 1 ∧ v % (n : Int) = i := by
+  have hn : (0 : Int) < n := by omega
+  unfold viewsOfSubset
+  split
+  · rename_i hgt
+    simp only [List.not_mem_nil, false_iff]
+    rintro ⟨h0, h1, h2⟩
+    have hq := Int.mul_ediv_add_emod v n
+    have hq0 : 0 ≤ v / (n : Int) := Int.ediv_nonneg h0 (by omega)
+    have := Int.mul_nonneg (show (0 : Int) ≤ n by omega) hq0
+    omega
+  · rename_i hle
+    simp only [List.mem_map, List.mem_range]
+    constructor
+    · rintro ⟨k, hk, rfl⟩
+      have hd0 : 0 ≤ (V - 1 - (0 + (i : Int))) / (n : Int) := Int.ediv_nonneg (by omega) (by omega)
+      have h1 : (k : Int) ≤ (V - 1 - (0 + i)) / (n : Int) := by omega
+      have h2 : (n : Int) * (k : Int) ≤ V - 1 - (0 + i) := by
+        rw [Int.mul_comm]; exact (Int.le_ediv_iff_mul_le hn).1 h1
+      have h4 : (0 : Int) ≤ n * k := Int.mul_nonneg (Int.natCast_nonneg n) (Int.natCast_nonneg k)
+      refine ⟨by omega, by omega, ?_⟩
+      rw [Int.add_mul_emod_self_left]
+      have h5 : ((0 : Int) + i) % n = 0 + i := Int.emod_eq_of_lt (by omega) (by omega)
+      omega
+    · rintro ⟨h0, h1, h2⟩
+      have hq := Int.mul_ediv_add_emod v n
+      have hq0 : 0 ≤ v / (n : Int) := Int.ediv_nonneg h0 (by omega)
+      have h3 : (n : Int) * (v / n) = (v / n) * n := Int.mul_comm _ _
+      have h4 : v / (n : Int) ≤ (V - 1 - (0 + i)) / (n : Int) :=
+        (Int.le_ediv_iff_mul_le hn).2 (by omega)
+      refine ⟨(v / (n : Int)).toNat, by omega, ?_⟩
+      rw [Int.toNat_of_nonneg hq0]
+      omega
+
+theorem viewsOfSubset_nodup (minV maxV : Int) {i n : Nat} (npos : 0 < n) :
+    (viewsOfSubset minV maxV i n).Nodup := by
+  unfold viewsOfSubset
+  split
+  · exact List.nodup_nil
+  · refine List.Nodup.map ?_ List.nodup_range
+    intro a b h
+    have h' : minV + (i : Int) + (n : Int) * (a : Int) = minV + i + n * b := h
+    have h2 : (n : Int) * (a : Int) = n * b := by omega
+    have := Int.eq_of_mul_eq_mul_left (show (n : Int) ≠ 0 by omega) h2
+    omega
+
+/-! ### `basicVSInSubset` -/
+
+/-- the innermost (view) loop of `find_basic_vs_nums_in_subset` -/
+def basicRow (y : Sym) (minV maxV : Int) (i n : Nat) (seg : Int) : List VS :=
+  ((viewsOfSubset minV maxV i n).filter fun v => isBasic y ⟨v, seg⟩).map fun v => ⟨v, seg⟩
+
+theorem basicVSInSubset_eq (y : Sym) (minV maxV minSeg maxSeg minTof maxTof : Int) (i n : Nat) :
+    basicVSInSubset y minV maxV minSeg maxSeg minTof maxTof i n =
+      (intRange minSeg maxSeg).flatMap fun seg =>
+        (intRange (-minTof) maxTof).flatMap fun _ => basicRow y minV maxV i n seg := rfl
+
+theorem basicVSInSubset_tof_single (y : Sym) (minV maxV minSeg maxSeg minTof maxTof : Int) (i n : Nat)
+    (htof : -minTof = maxTof) :
+    basicVSInSubset y minV maxV minSeg maxSeg minTof maxTof i n =
+      (intRange minSeg maxSeg).flatMap fun seg => basicRow y minV maxV i n seg := by
+  rw [basicVSInSubset_eq, htof, intRange_self]
+  simp
+
+theorem mem_basicRow {y : Sym} {minV maxV : Int} {i n : Nat} {seg : Int} {b : VS} :
+    b ∈ basicRow y minV maxV i n seg ↔
+      b.seg = seg ∧ b.view ∈ viewsOfSubset minV maxV i n ∧ isBasic y b = true := by
+  unfold basicRow
+  simp only [List.mem_map, List.mem_filter]
+  constructor
+  · rintro ⟨v, ⟨hv, hb⟩, rfl⟩; exact ⟨rfl, hv, hb⟩
+  · rintro ⟨rfl, hv, hb⟩; exact ⟨b.view, ⟨hv, hb⟩, rfl⟩
+
+theorem basicRow_nodup (y : Sym) (minV maxV : Int) {i n : Nat} (npos : 0 < n) (seg : Int) :
+    (basicRow y minV maxV i n seg).Nodup := by
+  unfold basicRow
+  refine List.Nodup.map ?_ ((viewsOfSubset_nodup minV maxV npos).filter _)
+  intro a b h
+  exact congrArg VS.view h
+
+theorem mem_basicVS {y : Sym} {minSeg maxSeg minTof maxTof : Int} {i n : Nat}
+    (npos : 0 < n) (hi : i < n) (htof : -minTof = maxTof) {b : VS} :
+    b ∈ basicVSInSubset y 0 (y.V - 1) minSeg maxSeg minTof maxTof i n ↔
+      minSeg ≤ b.seg ∧ b.seg ≤ maxSeg ∧ 0 ≤ b.view ∧ b.view ≤ y.V - 1 ∧
+        b.view % (n : Int) = i ∧ isBasic y b = true := by
+  rw [basicVSInSubset_tof_single _ _ _ _ _ _ _ _ _ htof]
+  simp only [List.mem_flatMap, mem_intRange, mem_basicRow, mem_viewsOfSubset npos hi]
+  constructor
+  · rintro ⟨s, ⟨h1, h2⟩, rfl, h3, h4⟩; exact ⟨h1, h2, h3.1, h3.2.1, h3.2.2, h4⟩
+  · rintro ⟨h1, h2, h3, h4, h5, h6⟩; exact ⟨b.seg, ⟨h1, h2⟩, rfl, ⟨h3, h4, h5⟩, h6⟩
+
+theorem basicVS_nodup (y : Sym) (minV maxV minSeg maxSeg minTof maxTof : Int) {i n : Nat}
+    (npos : 0 < n) (htof : -minTof = maxTof) :
+    (basicVSInSubset y minV maxV minSeg maxSeg minTof maxTof i n).Nodup := by
+  rw [basicVSInSubset_tof_single _ _ _ _ _ _ _ _ _ htof, List.nodup_flatMap]
+  refine ⟨fun s _ => basicRow_nodup y minV maxV npos s, ?_⟩
+  refine List.Pairwise.imp ?_ (intRange_nodup minSeg maxSeg)
+  intro s t hst
+  show List.Disjoint _ _
+  rw [List.disjoint_left]
+  intro b hb hb'
+  exact hst ((mem_basicRow.1 hb).1.symm.trans (mem_basicRow.1 hb').1)
+
+end Subsets
+
+open Subsets
+
+/-! ### the theorems -/
 
 theorem processed_mem_iff (y : Sym) (minSeg maxSeg minTof maxTof : Int) (n i : Nat)
     (wf : y.WF) (npos : 0 < n) (hseg : y.swapSeg = true → minSeg = -maxSeg)
@@ -11,30 +148,155 @@ theorem processed_mem_iff (y : Sym) (minSeg maxSeg minTof maxTof : Int) (n i : N
     p ∈ processed y 0 (y.V - 1) minSeg maxSeg minTof maxTof i n ↔
       (0 ≤ p.view ∧ p.view < y.V ∧ minSeg ≤ p.seg ∧ p.seg ≤ maxSeg ∧
         (findBasic y p).1.view % (n : Int) = i) := by
-  sorry
+  have htof' : -minTof = maxTof := by omega
+  unfold processed
+  simp only [List.mem_flatMap, mem_basicVS npos hi htof']
+  constructor
+  · rintro ⟨b, ⟨h1, h2, h3, h4, h5, h6⟩, hp⟩
+    obtain ⟨e, g1, g2, g3⟩ := findBasic_of_mem_related y wf b h6 ⟨h3, by omega⟩ p hp
+    refine ⟨g1, g2, ?_, ?_, by rw [e]; exact h5⟩
+    · rcases g3 with g | ⟨sw, g⟩
+      · omega
+      · have := hseg sw; omega
+    · rcases g3 with g | ⟨sw, g⟩
+      · omega
+      · have := hseg sw; omega
+  · rintro ⟨h1, h2, h3, h4, h5⟩
+    obtain ⟨m1, m2, m3, m4⟩ := mem_related_of_findBasic y wf p ⟨h1, h2⟩
+    obtain ⟨_, _, _, g3⟩ := findBasic_of_mem_related y wf _ m2 ⟨m3, m4⟩ p m1
+    refine ⟨(findBasic y p).1, ⟨?_, ?_, m3, by omega, h5, m2⟩, m1⟩
+    · rcases g3 with g | ⟨sw, g⟩
+      · omega
+      · have := hseg sw; omega
+    · rcases g3 with g | ⟨sw, g⟩
+      · omega
+      · have := hseg sw; omega
 
 theorem processed_nodup (y : Sym) (minSeg maxSeg minTof maxTof : Int) (n i : Nat)
     (wf : y.WF) (npos : 0 < n) (hseg : y.swapSeg = true → minSeg = -maxSeg)
     (htof : minTof = -maxTof ∧ 0 ≤ maxTof) (hi : i < n) :
     (processed y 0 (y.V - 1) minSeg maxSeg minTof maxTof i n).Nodup := by
-  sorry
+  have htof' : -minTof = maxTof := by omega
+  have _ := hseg
+  unfold processed
+  rw [List.nodup_flatMap]
+  constructor
+  · intro b hb
+    obtain ⟨h1, h2, h3, h4, h5, h6⟩ := (mem_basicVS npos hi htof').1 hb
+    exact (related_nodup y wf b h6 ⟨h3, by omega⟩).1
+  · refine List.Pairwise.imp_of_mem ?_ (basicVS_nodup y 0 (y.V - 1) minSeg maxSeg minTof maxTof npos htof')
+    intro a b ha hb hab
+    show List.Disjoint _ _
+    rw [List.disjoint_left]
+    intro w hwa hwb
+    obtain ⟨_, _, a3, a4, _, a6⟩ := (mem_basicVS npos hi htof').1 ha
+    obtain ⟨_, _, b3, b4, _, b6⟩ := (mem_basicVS npos hi htof').1 hb
+    have ea := (findBasic_of_mem_related y wf a a6 ⟨a3, by omega⟩ w hwa).1
+    have eb := (findBasic_of_mem_related y wf b b6 ⟨b3, by omega⟩ w hwb).1
+    exact hab (ea.symm.trans eb)
 
 theorem subsets_partition (y : Sym) (minSeg maxSeg minTof maxTof : Int) (n : Nat)
     (wf : y.WF) (npos : 0 < n) (hseg : y.swapSeg = true → minSeg = -maxSeg)
     (htof : minTof = -maxTof ∧ 0 ≤ maxTof) (p : VS) :
     ((List.range n).flatMap fun i => processed y 0 (y.V - 1) minSeg maxSeg minTof maxTof i n).count p =
       if 0 ≤ p.view ∧ p.view < y.V ∧ minSeg ≤ p.seg ∧ p.seg ≤ maxSeg then 1 else 0 := by
-  sorry
+  have hnd : ((List.range n).flatMap fun i =>
+      processed y 0 (y.V - 1) minSeg maxSeg minTof maxTof i n).Nodup := by
+    rw [List.nodup_flatMap]
+    constructor
+    · intro i hi
+      exact processed_nodup y minSeg maxSeg minTof maxTof n i wf npos hseg htof (List.mem_range.1 hi)
+    · refine List.Pairwise.imp_of_mem ?_ (List.nodup_range (n := n))
+      intro i j hi hj hij
+      show List.Disjoint _ _
+      rw [List.disjoint_left]
+      intro w hwi hwj
+      have e1 := ((processed_mem_iff y minSeg maxSeg minTof maxTof n i wf npos hseg htof
+        (List.mem_range.1 hi) w).1 hwi).2.2.2.2
+      have e2 := ((processed_mem_iff y minSeg maxSeg minTof maxTof n j wf npos hseg htof
+        (List.mem_range.1 hj) w).1 hwj).2.2.2.2
+      exact hij (by omega)
+  have hmem : p ∈ ((List.range n).flatMap fun i =>
+      processed y 0 (y.V - 1) minSeg maxSeg minTof maxTof i n) ↔
+      (0 ≤ p.view ∧ p.view < y.V ∧ minSeg ≤ p.seg ∧ p.seg ≤ maxSeg) := by
+    rw [List.mem_flatMap]
+    constructor
+    · rintro ⟨i, hi, hp⟩
+      obtain ⟨h1, h2, h3, h4, _⟩ := (processed_mem_iff y minSeg maxSeg minTof maxTof n i wf npos hseg htof
+        (List.mem_range.1 hi) p).1 hp
+      exact ⟨h1, h2, h3, h4⟩
+    · rintro ⟨h1, h2, h3, h4⟩
+      have hn : (0 : Int) < n := by omega
+      have e0 := Int.emod_nonneg (findBasic y p).1.view (show (n : Int) ≠ 0 by omega)
+      have e1 := Int.emod_lt_of_pos (findBasic y p).1.view hn
+      have hi : ((findBasic y p).1.view % (n : Int)).toNat < n := by omega
+      refine ⟨_, List.mem_range.2 hi, ?_⟩
+      rw [processed_mem_iff y minSeg maxSeg minTof maxTof n _ wf npos hseg htof hi p]
+      exact ⟨h1, h2, h3, h4, by omega⟩
+  rw [List.Nodup.count hnd]
+  by_cases hc : (0 ≤ p.view ∧ p.view < y.V ∧ minSeg ≤ p.seg ∧ p.seg ≤ maxSeg)
+  · rw [if_pos hc, if_pos (hmem.2 hc)]
+  · rw [if_neg hc, if_neg (fun h => hc (hmem.1 h))]
+
+namespace Subsets
+
+theorem count_flatMap_const {α β : Type} [BEq β] (T : List α) (r : List β) (b : β) :
+    (T.flatMap fun _ => r).count b = T.length * r.count b := by
+  induction T with
+  | nil => simp
+  | cons t T ih => simp [List.flatMap_cons, List.count_append, ih, Nat.add_mul, Nat.add_comm]
+
+theorem count_flatMap_flatMap_const {α β γ : Type} [BEq γ] (L : List α) (T : List β)
+    (r : α → List γ) (b : γ) :
+    (L.flatMap fun s => T.flatMap fun _ => r s).count b =
+      T.length * (L.flatMap fun s => r s).count b := by
+  induction L with
+  | nil => simp
+  | cons s L ih =>
+    simp only [List.flatMap_cons, List.count_append, ih, count_flatMap_const, Nat.mul_add]
+
+end Subsets
 
 theorem tof_loop_multiplicity (y : Sym) (minV maxV minSeg maxSeg minTof maxTof : Int) (i n : Nat) (b : VS) :
     (basicVSInSubset y minV maxV minSeg maxSeg minTof maxTof i n).count b =
       (maxTof + minTof + 1).toNat * (basicVSInSubset y minV maxV minSeg maxSeg 0 0 i n).count b := by
-  sorry
+  rw [basicVSInSubset_tof_single y minV maxV minSeg maxSeg 0 0 i n (by omega),
+    basicVSInSubset_eq, count_flatMap_flatMap_const, intRange_length]
+  congr 2
+  omega
+
+theorem Subsets.numVSInSubset_eq_length (y : Sym) (maxSeg : Int) (n i : Nat) (h : y.WF) (hn : 0 < n) (hi : i < n) :
+    numVSInSubset y 0 (y.V - 1) maxSeg i n =
+      (processed y 0 (y.V - 1) (-maxSeg) maxSeg 0 0 i n).length := by
+  have htof' : -(0 : Int) = 0 := by omega
+  unfold processed
+  rw [List.length_flatMap]
+  have hcongr : ∀ b ∈ basicVSInSubset y 0 (y.V - 1) (-maxSeg) maxSeg 0 0 i n,
+      (related y b).length = numRelated y b := by
+    intro b hb
+    obtain ⟨_, _, h3, h4, _, h6⟩ := (mem_basicVS hn hi htof').1 hb
+    exact (related_nodup y h b h6 ⟨h3, by omega⟩).2.symm
+  rw [List.map_congr_left hcongr, basicVSInSubset_tof_single _ _ _ _ _ _ _ _ _ htof', List.map_flatMap]
+  unfold numVSInSubset basicRow
+  simp only [List.map_map]
+  rfl
 
 theorem balanced_iff (y : Sym) (maxSeg : Int) (n : Nat) (h : y.WF) (hn : 0 < n) :
     balanced y 0 (y.V - 1) maxSeg n = true ↔
       ∀ i, i < n → (processed y 0 (y.V - 1) (-maxSeg) maxSeg 0 0 i n).length =
                    (processed y 0 (y.V - 1) (-maxSeg) maxSeg 0 0 0 n).length := by
-  sorry
+  unfold balanced
+  rw [List.all_eq_true]
+  constructor
+  · intro H i hi
+    have := H i (List.mem_range.2 hi)
+    rw [beq_iff_eq, numVSInSubset_eq_length y maxSeg n i h hn hi,
+      numVSInSubset_eq_length y maxSeg n 0 h hn hn] at this
+    exact this
+  · intro H i hi
+    have hi' := List.mem_range.1 hi
+    rw [beq_iff_eq, numVSInSubset_eq_length y maxSeg n i h hn hi',
+      numVSInSubset_eq_length y maxSeg n 0 h hn hn]
+    exact H i hi'
 
 end StirVerif.C06
